@@ -23,6 +23,12 @@ ENV["UBSAN_OPTIONS"] = "print_stacktrace=1:halt_on_error=1:exitcode=67"
 VIOL_CLASSES = ("CRASH", "WEDGE", "VIOL_ERRNUM0", "VIOL_NOMSG")
 
 
+def is_viol(r):
+    """oracle hit: crash / wedge / failure without number or message, or a parse failure after which hawk_close() left blocks of the
+    interpreter's allocator unreleased (the counting allocator of the harness: `leak` = blocks outstanding after close)"""
+    return r["cls"] in VIOL_CLASSES or (r["cls"] == "PARSE_ERR" and r.get("leak", "0") not in ("0", "", None))
+
+
 # ------------------------------------------------------------------------------------------------------------------
 # cases
 # ------------------------------------------------------------------------------------------------------------------
@@ -38,7 +44,7 @@ def make_cases(seed, n, prefix):
             kind, feats = "grammar", g.feat
         elif q < 0.70:
             g, s = G.targeted(rng)
-            src = s.encode("utf-8")
+            src = s.encode("utf-8", "surrogateescape")
             kind, feats = "targeted", g.feat
         else:
             if rng.random() < 0.4:
@@ -73,7 +79,16 @@ def run_harness(exe, cases, scratch, soft=SOFT_MS, hard=HARD_MS):
     cf = os.path.join(scratch, "cases.bin")
     write_casefile(cf, cases)
     budget = 30 + len(cases) * (soft + hard) / 1000.0 * 0.25 + len(cases) * 0.5
-    rc, out, err = C.sh([exe, cf, str(soft), str(hard), os.path.join(scratch, "w")], timeout=budget, env=ENV, cwd=scratch)
+    for attempt in range(20):
+        try:
+            rc, out, err = C.sh([exe, cf, str(soft), str(hard), os.path.join(scratch, "w")], timeout=budget, env=ENV, cwd=scratch)
+            break
+        except OSError as e:
+            # ETXTBSY: a child forked by another thread (lake, gcc) still holds the descriptor through which our copy of the
+            # harness was written, for the instant between its fork and exec
+            if e.errno != 26 or attempt == 19:
+                raise
+            time.sleep(0.25)
     res = {}
     for line in out.decode(errors="replace").split("\n"):
         w = line.split(" ", 3)
@@ -92,7 +107,7 @@ def run_harness(exe, cases, scratch, soft=SOFT_MS, hard=HARD_MS):
     return res, rc, err.decode(errors="replace")[-2000:]
 
 
-LEAF_RE = re.compile(r"^(make_\w+_val|hawk_rtx_make\w*val\w*|hawk_copy_\w+|hawk_comp_\w+|hawk_\w?ecs_\w+|hawk_rtx_refupval|hawk_rtx_refdownval|hawk_rtx_freeval\w*|hawk_rtx_getval\w+|hawk_rtx_valto\w+|hawk_rtx_freemem|hawk_gem_\w+)$")
+LEAF_RE = re.compile(r"^(hawk_clrpt|make_\w+_val|hawk_rtx_make\w*val\w*|hawk_copy_\w+|hawk_comp_\w+|hawk_\w?ecs_\w+|hawk_rtx_refupval|hawk_rtx_refdownval|hawk_rtx_freeval\w*|hawk_rtx_getval\w+|hawk_rtx_valto\w+|hawk_rtx_freemem|hawk_gem_\w+)$")
 FRAME_RE = re.compile(r"#\d+ 0x[0-9a-f]+ in (\S+) (\S+?):(\d+)")
 
 
@@ -131,6 +146,8 @@ def signature(r):
                                                          or base.startswith("mod-")) and not LEAF_RE.match(fn) and fn != "on_usr2":
                 return "wedge:" + fn
         return "wedge:" + r.get("phase", "?")
+    if cls == "PARSE_ERR" and r.get("leak", "0") not in ("0", "", None):
+        return "leak:parse:e" + r.get("errnum", "?")
     if cls == "VIOL_ERRNUM0":
         return "errnum0:" + r.get("stage", "?")
     if cls == "VIOL_NOMSG":
@@ -168,7 +185,7 @@ def job(args):
             a[1] += 1 if ran else 0
         if ran and int(r.get("stmts", "0")) >= 3:
             nontriv.add(hashlib.sha1(c["src"] + c["traits"].encode() + c["inp"][:64]).hexdigest()[:12])
-        if r["cls"] in VIOL_CLASSES:
+        if is_viol(r):
             viol.append((signature(r), c, r))
     shutil.rmtree(scratch, ignore_errors=True)
     return dict(n=len(cases), classes=classes, feats=feats, viol=viol, nontriv=nontriv, lost=lost, rc=rc, err=err if lost else "",
@@ -455,7 +472,7 @@ def correspondence(ctx, exe):
         if r is None:
             oracle_hits.append((op, prog, None, "no result from the harness"))
             continue
-        if r["cls"] in VIOL_CLASSES:
+        if is_viol(r):
             oracle_hits.append((op, prog, r, describe(r)))
             continue
         exp = expected(op, model[i], edivby0)
@@ -607,7 +624,7 @@ def run(ctx):
             evaluations += 1
             if r is not None:
                 classes[r["cls"]] = classes.get(r["cls"], 0) + 1
-                if r["cls"] in VIOL_CLASSES:
+                if is_viol(r):
                     viol.setdefault(signature(r), []).append((c, r))
         ctx.log("corpus: %d cases" % len(corpus_cases))
 
@@ -785,4 +802,4 @@ def replay(ctx, path):
     if r.get("stderr"):
         print(r["stderr"][:3000])
     print("signature:", signature(r))
-    return 1 if r["cls"] in VIOL_CLASSES else 0
+    return 1 if is_viol(r) else 0
